@@ -122,7 +122,7 @@ impl<R: BufRead> ByteReader<R> {
                         self.state = ParseState::OneZero;
                     }
                     None => {
-                        self.i = chunk.len();
+                        self.i = limit;
                         break;
                     }
                 },
